@@ -453,14 +453,7 @@ func c03Sequence(c *Ctx, fn *ssa.Function, em *types.Named) {
 			return
 		}
 		// its result must be written
-		written := false
-		for _, rr := range referrersOf(in.(ssa.Value)) {
-			if cc := callCommon(rr); cc != nil {
-				if f2 := cc.StaticCallee(); f2 != nil && funcPkgPath(f2) == "io" && f2.Name() == "WriteString" {
-					written = true
-				}
-			}
-		}
+		written := flowsToWriter(in.(ssa.Value), 0)
 		e := ev{name: f.Name(), depth: loopDepth(in.Block()), order: rpo[in.Block()]*10000 + instrIndex(in), in: in}
 		if !written {
 			e.name += "(unwritten)"
@@ -698,6 +691,24 @@ func runC04(c *Ctx) {
 		})
 		r.Check("R04.2", FuncName(rtl), "column c of a row is measured from cell c", rtl.Pos(), okCols, "")
 		r.Check("R04.2", FuncName(rtl), "line l, column c of a row is line l of cell c", rtl.Pos(), okCopy, "")
+		if !okBlank {
+			// no explicit blank store: fine when every line's slice is freshly made (zeroed) for that line alone
+			fresh, n := true, 0
+			eachInstr(rtl, func(in ssa.Instruction) {
+				ms, isMS := in.(*ssa.MakeSlice)
+				if !isMS {
+					return
+				}
+				if sl, isSl := ms.Type().Underlying().(*types.Slice); !isSl || !isNamed(sl.Elem(), pkgPath("texttable/decoration"), "WidthString") {
+					return
+				}
+				n++
+				if loopDepth(ms.Block()) == 0 {
+					fresh = false
+				}
+			})
+			okBlank = fresh && n > 0
+		}
 		r.Check("R04.2", FuncName(rtl), "a missing line is a blank slot", rtl.Pos(), okBlank, "")
 	}
 	// dimensionSetter: linesWidths[i] = {S: lines[i], ...} over cell.Lines()
@@ -884,6 +895,21 @@ func runC04(c *Ctx) {
 func twoLevelIndex(p *prover, addr ssa.Value) (string, string) {
 	ia, ok := addr.(*ssa.IndexAddr)
 	if !ok {
+		return "", ""
+	}
+	// the inner slice may also be one made here and installed as A[x] (line := make(..); ..; lines[l] = line)
+	if ms, isMS := p.resolve(ia.X).(*ssa.MakeSlice); isMS {
+		var outer *ssa.IndexAddr
+		n := 0
+		for _, rr := range referrersOf(ms) {
+			if st, isSt := rr.(*ssa.Store); isSt && st.Val == ssa.Value(ms) {
+				n++
+				outer, _ = st.Addr.(*ssa.IndexAddr)
+			}
+		}
+		if n == 1 && outer != nil {
+			return p.linOf(outer.Index).String(), p.linOf(ia.Index).String()
+		}
 		return "", ""
 	}
 	u, ok := ia.X.(*ssa.UnOp)
@@ -1161,4 +1187,69 @@ func sliceStoreSites(root ssa.Value, bind map[*ssa.Parameter]ssa.Value, depth in
 	}
 	visit(root)
 	return out
+}
+
+// flowsToWriter: v is handed to a write on an io.Writer value of its function (io.WriteString, fmt.Fprint*,
+// w.Write, ...), directly or as the argument of a local closure / module helper whose corresponding parameter is
+// (depth <= 2).
+func flowsToWriter(v ssa.Value, depth int) bool {
+	var fn *ssa.Function
+	switch x := v.(type) {
+	case ssa.Instruction:
+		fn = x.Parent()
+	case *ssa.Parameter:
+		fn = x.Parent()
+	}
+	if fn == nil {
+		return false
+	}
+	wv := writerValues(fn)
+	for _, rr := range referrersOf(v) {
+		ci, ok := rr.(ssa.CallInstruction)
+		if !ok {
+			// conversions ([]byte(s)) and variadic packing
+			switch y := rr.(type) {
+			case *ssa.Convert:
+				if flowsToWriter(y, depth) {
+					return true
+				}
+			case *ssa.MakeInterface:
+				if flowsToWriter(y, depth) {
+					return true
+				}
+			case *ssa.Store:
+				// element of the implicit []interface{} of a variadic Fprint
+				if ia, isIA := y.Addr.(*ssa.IndexAddr); isIA {
+					if al, isAl := ia.X.(*ssa.Alloc); isAl {
+						for _, r2 := range referrersOf(al) {
+							if sl, isSl := r2.(*ssa.Slice); isSl && flowsToWriter(sl, depth) {
+								return true
+							}
+						}
+					}
+				}
+			}
+			continue
+		}
+		cc := ci.Common()
+		takesWriter := cc.IsInvoke() && wv[cc.Value]
+		for _, a := range cc.Args {
+			if wv[a] {
+				takesWriter = true
+			}
+		}
+		callee := cc.StaticCallee()
+		if takesWriter && (callee == nil || !inModule(callee)) {
+			return true
+		}
+		if callee == nil || callee.Blocks == nil || !inModule(callee) || depth >= 2 || len(cc.Args) != len(callee.Params) {
+			continue
+		}
+		for k, a := range cc.Args {
+			if a == v && flowsToWriter(callee.Params[k], depth+1) {
+				return true
+			}
+		}
+	}
+	return false
 }
